@@ -1,4 +1,4 @@
-HOOK_COMMITS = ["4d47cea", "08b09e0"]
+HOOK_COMMITS = ["4d47cea", "08b09e0", "638d362", "9be4c8c"]
 
 _PENDING = "no check registered yet: the model/theorems/correspondence for this property are not built at this commit (see DESIGN.md section 6 for the order of work)"
 NOT_APPLICABLE = {("C%02d" % i): _PENDING for i in range(1, 21)}
@@ -95,5 +95,22 @@ META = {
         "note": "Trusted: Coq kernel, extraction, facade, the slab model. Fixed defect: a delivery split at link level into exactly two "
                 "frames got two delivery-ids (9ae4fe4).",
         "technique": "Coq proof (invariants of slab + maps over operation lists) + extracted-model-vs-implementation correspondence",
+    },
+    "C12": {
+        "text": "Theorems (Coq, closed) about the connection lifecycle model Conn/Lifecycle.v, for every list of local operations "
+                "(open, close, close_with_error, drop) and peer actions (header, garbage header, open early/late, close with or without "
+                "error, illegal frames, empty frames, EOF): what is written is a prefix of header, open, one close and nothing after; "
+                "a peer close is answered whenever the open is on the wire and no close yet; after a close with an error nothing is "
+                "written and nothing changes until the peer's close or EOF; an illegal frame yields a close with an error and the "
+                "discarding state; close() reports Ok for a clean close whatever was in flight and the peer's error when it sent one. "
+                "The model is run against the real ConnectionEngine (tokio current-thread runtime, paused clock, in-memory duplex, "
+                "scripted byte-level peer, one stimulus per quiescence barrier) on random and enumerated scripts every run, and the "
+                "property is also checked directly on the observed traces.",
+        "design_ref": "DESIGN.md section 4, C12",
+        "note": "Trusted: Coq kernel, extraction, the scripted-peer harness (barrier = 1 ms of paused time). Sessions are not part of "
+                "this model (C13). Fixed defects: busy-spin after close (cbb5a70), peer close before open waited for twice (a23b605), "
+                "illegal frame before open closed without error (ee0eb3a), in-flight frames after local close made a clean close "
+                "report IllegalState (c56ec95).",
+        "technique": "Coq proof (state invariant lifted over event lists) + extracted-model-vs-engine correspondence on scripted-peer traces",
     },
 }
